@@ -1,5 +1,7 @@
 import LachesisVerif.Model.FcCache
 import LachesisVerif.Model.Orderer
+import LachesisVerif.Props.C05
+import LachesisVerif.Proofs.VecEmb
 /-!
 # C07 — Rejected and merely built events leave no trace
 
@@ -21,8 +23,23 @@ uncached answer for a key is the same in all states in which the key's events ar
 temporary ids of `Build` it additionally needs that an id never denotes two different events — the
 defect repaired by `fix:` ae8ece9 (ids #1 and #256 coincided): `C07_defect_reused_id` shows that
 without it a stale entry is served.
-PARTIAL: `Deterministic` for the vector-index model is the stability corollary of C05 (Props/C05);
-the vector/branch tables restored by `DropNotFlushed` are covered by correspondence only.
+`Deterministic` is DISCHARGED for the vector-index model (second half of this file):
+* `fc_deterministic_prefix` (= `C05_fc_stable`): growing a valid history `h` to `h ++ more`, or rolling
+  back from `h ++ more` to `h`, does not change the model's `fc` answer for events of `h`;
+* `fc_deterministic`: general "same two events indexed in two states" form — two valid index states
+  whose events are events of one valid graph `U` under consistent ids (embeddings preserving creator,
+  seq, parents: `VecProofs.HistEmb`; proof: `C05_fc_eq_spec` + the graph definition only looks at the
+  ancestry of `A`, `VecProofs.emb_fcspec`) give equal answers;
+* `C07_cache_transparent_vec`: `cache_transparent` instantiated with σ := the index after a prefix of
+  one fixed valid history, κ := pair of positions, f := the vector `fc` when both are indexed, for
+  all sequences of "add an event / roll back to an earlier prefix / query / evict": every cached
+  answer equals the uncached vector answer of the current state — no hypothesis besides the
+  standing ones of C05 (`Good`: `Valid`, `PLen`, 32-bit sizes; quorum > 0);
+* `C07_cache_transparent_vec_ids`: the same for arbitrary sequences of valid index states over one
+  graph with consistent ids (speculative `Build` events dropped again, other indexing orders).
+NOT proved (correspondence only): that `DropNotFlushed` restores the vector/branch tables of the
+real index to the state of the shorter history (the model's "roll back" is by definition the index
+of the prefix); that the ids of the real code are consistent is the injective sampler of C04.
 -/
 namespace C07
 open Model.FcCache
@@ -103,5 +120,162 @@ theorem process_rejected_no_trace (env : Env) (s : OState) (id creator spf claim
     (h : Model.Election.frameAccepted (quorumOn env s id) spf claimed = false) :
     (process env s id creator spf claimed).1 = s := by
   simp [process, h]
+
+/-! ### `Deterministic` discharged for the vector-index model -/
+section VecModel
+open Model.Vec VecProofs
+
+/-- the standing assumptions of C05 on a history: what the event checks guarantee (`Valid`), no
+    double parents (`PLen`), 32-bit branch ids -/
+structure Good (nVals : Nat) (h : Hist) : Prop where
+  valid : Valid nVals h
+  plen : PLen h
+  small : nVals + h.length < 4294967296
+
+theorem Good.take {nVals : Nat} {H : Hist} (g : Good nVals H) (n : Nat) : Good nVals (H.take n) := by
+  have e : H.take n ++ H.drop n = H := List.take_append_drop n H
+  refine ⟨la_valid_take g.valid n, la_plen_prefix (ext := H.drop n) (by rw [e]; exact g.plen), ?_⟩
+  have := g.small
+  have : (H.take n).length ≤ H.length := by rw [List.length_take]; exact Nat.min_le_right _ _
+  omega
+
+/-- `fc_deterministic`, prefix form (this is `C05_fc_stable`): the answer for two events does not
+    change when the index grows from a valid history `h` to `h ++ more`, nor — read right to left —
+    when it is rolled back from `h ++ more` to `h`. -/
+theorem fc_deterministic_prefix {nVals : Nat} {h more : Hist} (weight : Nat → Nat) (quorum : Nat)
+    (g : Good nVals (h ++ more)) (hq : 0 < quorum) {a b : Nat} (ha : a < h.length) (hb : b < h.length) :
+    (run nVals h).fc weight quorum a b = (run nVals (h ++ more)).fc weight quorum a b :=
+  (C05.C05_fc_stable weight quorum g.valid g.plen g.small hq ha hb).symm
+
+/-- `fc_deterministic`, general form: "the same two events indexed in two states". Two valid index
+    states `h₁`, `h₂` whose events are events of one valid graph `U` (embeddings `f₁`, `f₂`: same
+    creator, seq, parents; an id — a position of `U` — never denotes two different events): if
+    `(a₁, b₁)` in `h₁` and `(a₂, b₂)` in `h₂` are the same events of `U`, the model's `fc` answers
+    coincide. Covers growing, rolling back, re-adding in another order, and speculative events of
+    `Build` that were dropped (they are simply absent from `h₂`). -/
+theorem fc_deterministic {nVals : Nat} {h₁ h₂ U : Hist} {f₁ f₂ : Nat → Nat} (weight : Nat → Nat) (quorum : Nat)
+    (g₁ : Good nVals h₁) (g₂ : Good nVals h₂) (gU : Good nVals U)
+    (I₁ : HistEmb h₁ U f₁) (I₂ : HistEmb h₂ U f₂) (hq : 0 < quorum)
+    {a₁ b₁ a₂ b₂ : Nat} (ha₁ : a₁ < h₁.length) (hb₁ : b₁ < h₁.length) (ha₂ : a₂ < h₂.length) (hb₂ : b₂ < h₂.length)
+    (hA : f₁ a₁ = f₂ a₂) (hB : f₁ b₁ = f₂ b₂) :
+    (run nVals h₁).fc weight quorum a₁ b₁ = (run nVals h₂).fc weight quorum a₂ b₂ := by
+  rw [emb_fc weight quorum I₁ (C05.hbInv_of_valid g₁.valid g₁.small) g₁.valid g₁.plen g₁.small
+        (C05.hbInv_of_valid gU.valid gU.small) gU.valid gU.plen gU.small hq ha₁ hb₁,
+      emb_fc weight quorum I₂ (C05.hbInv_of_valid g₂.valid g₂.small) g₂.valid g₂.plen g₂.small
+        (C05.hbInv_of_valid gU.valid gU.small) gU.valid gU.plen gU.small hq ha₂ hb₂, hA, hB]
+
+/-- the uncached forkless-cause answer when the index holds the first `n` events of `H`
+    (`none` unless both events are indexed) -/
+def fcAt (nVals : Nat) (H : Hist) (weight : Nat → Nat) (quorum : Nat) (n : Nat) (k : Nat × Nat) : Option Bool :=
+  if k.1 < (H.take n).length ∧ k.2 < (H.take n).length then
+    some ((run nVals (H.take n)).fc weight quorum k.1 k.2) else none
+
+theorem fcAt_eq_full {nVals : Nat} {H : Hist} (weight : Nat → Nat) (quorum : Nat) (g : Good nVals H)
+    (hq : 0 < quorum) (n : Nat) (k : Nat × Nat) (v : Bool) (h : fcAt nVals H weight quorum n k = some v) :
+    v = (run nVals H).fc weight quorum k.1 k.2 := by
+  unfold fcAt at h
+  split at h
+  · rename_i hk
+    cases h
+    have e : H.take n ++ H.drop n = H := List.take_append_drop n H
+    have := fc_deterministic_prefix (h := H.take n) (more := H.drop n) weight quorum (by rw [e]; exact g) hq hk.1 hk.2
+    rw [e] at this; exact this
+  · cases h
+
+/-- `Deterministic` holds for the vector model over the prefixes of one valid history -/
+theorem fcAt_deterministic {nVals : Nat} {H : Hist} (weight : Nat → Nat) (quorum : Nat) (g : Good nVals H)
+    (hq : 0 < quorum) : Deterministic (fcAt nVals H weight quorum) := by
+  intro n n' k v v' h h'
+  rw [fcAt_eq_full weight quorum g hq n k v h, fcAt_eq_full weight quorum g hq n' k v' h']
+
+/-- C07 (cache transparency for the vector model, no determinism hypothesis left): the index holds a
+    prefix of a valid history `H`; operations are `move n'` — add the next event (`n' = n + 1`), roll
+    back to any earlier state (`n' < n`, `DropNotFlushed`), or any other jump between prefixes — and
+    cached queries, with an arbitrary eviction policy. Then every query for two indexed events returns
+    exactly what the uncached vector computation returns in the current state. -/
+theorem C07_cache_transparent_vec {nVals : Nat} {H : Hist} (weight : Nat → Nat) (quorum : Nat)
+    (g : Good nVals H) (hq : 0 < quorum) (ev : Evict (Nat × Nat)) (hev : Shrinks ev)
+    (n0 : Nat) (ops : List (Op Nat (Nat × Nat))) (a b : Nat) :
+    let c := ops.foldl (step (fcAt nVals H weight quorum) ev) ⟨n0, []⟩
+    a < (H.take c.st).length → b < (H.take c.st).length →
+    (query (fcAt nVals H weight quorum) ev c (a, b)).2 =
+      some ((run nVals (H.take c.st)).fc weight quorum a b) := by
+  intro c ha hb
+  apply cache_transparent (fcAt nVals H weight quorum) ev hev (fcAt_deterministic weight quorum g hq) n0 ops (a, b)
+  show fcAt nVals H weight quorum c.st (a, b) = _
+  unfold fcAt
+  rw [if_pos ⟨ha, hb⟩]
+
+/-- non-vacuity: the forked six-event history of C05 satisfies `Good`; after add/add/…/roll back/query
+    the cached answer is the vector answer of the current (rolled-back) state -/
+theorem exH_good : Good 3 C05.exH := ⟨C05.exH_valid, C05.exH_plen, by decide⟩
+
+example : (query (fcAt 3 C05.exH (fun _ => 1) 2) (fun l => l)
+      ([Op.move 6, Op.query (5, 0), Op.query (3, 0), Op.move 4].foldl
+        (step (fcAt 3 C05.exH (fun _ => 1) 2) (fun l => l)) ⟨0, []⟩) (3, 0)).2 =
+    some ((run 3 (C05.exH.take 4)).fc (fun _ => 1) 2 3 0) :=
+  C07_cache_transparent_vec (fun _ => 1) 2 exH_good (by decide) (fun l => l) (fun _ _ h => h) 0
+    [Op.move 6, Op.query (5, 0), Op.query (3, 0), Op.move 4] 3 0 (by decide) (by decide)
+
+/-! #### general index states: events named by ids of one graph
+
+An index state is any valid history `h` together with an embedding `emb` of its positions into a
+fixed valid graph `U` (the ids). Nothing relates two states except that ids are used consistently —
+which is exactly "an id never denotes two different events". -/
+
+structure IdxState (nVals : Nat) (U : Hist) where
+  h : Hist
+  emb : Nat → Nat
+  good : Good nVals h
+  isEmb : HistEmb h U emb
+
+open Classical in
+/-- the uncached answer for a pair of ids: defined when both ids are indexed in the state -/
+noncomputable def fcIds {nVals : Nat} {U : Hist} (weight : Nat → Nat) (quorum : Nat) (s : IdxState nVals U)
+    (k : Nat × Nat) : Option Bool :=
+  if hx : ∃ p : Nat × Nat, p.1 < s.h.length ∧ p.2 < s.h.length ∧ s.emb p.1 = k.1 ∧ s.emb p.2 = k.2 then
+    some ((run nVals s.h).fc weight quorum hx.choose.1 hx.choose.2) else none
+
+theorem fcIds_eq_graph {nVals : Nat} {U : Hist} (weight : Nat → Nat) (quorum : Nat) (gU : Good nVals U)
+    (hq : 0 < quorum) (s : IdxState nVals U) (k : Nat × Nat) (v : Bool) (h : fcIds weight quorum s k = some v) :
+    v = (run nVals U).fc weight quorum k.1 k.2 := by
+  unfold fcIds at h
+  split at h
+  · rename_i hx
+    cases h
+    obtain ⟨h1, h2, h3, h4⟩ := hx.choose_spec
+    rw [emb_fc weight quorum s.isEmb (C05.hbInv_of_valid s.good.valid s.good.small) s.good.valid s.good.plen
+      s.good.small (C05.hbInv_of_valid gU.valid gU.small) gU.valid gU.plen gU.small hq h1 h2, h3, h4]
+  · cases h
+
+theorem fcIds_deterministic {nVals : Nat} {U : Hist} (weight : Nat → Nat) (quorum : Nat) (gU : Good nVals U)
+    (hq : 0 < quorum) : Deterministic (fcIds (nVals := nVals) (U := U) weight quorum) := by
+  intro s s' k v v' h h'
+  rw [fcIds_eq_graph weight quorum gU hq s k v h, fcIds_eq_graph weight quorum gU hq s' k v' h']
+
+/-- C07 (cache transparency, general form): for ANY sequence of index states (each a valid history
+    whose events are events of the graph `U` under consistent ids — adds, commits, roll-backs,
+    speculative events of `Build`, re-indexing in another order) and cached queries with any eviction
+    policy, a query for two indexed events `a`, `b` of the current state returns the uncached vector
+    answer of the current state. -/
+theorem C07_cache_transparent_vec_ids {nVals : Nat} {U : Hist} (weight : Nat → Nat) (quorum : Nat)
+    (gU : Good nVals U) (hq : 0 < quorum) (ev : Evict (Nat × Nat)) (hev : Shrinks ev)
+    (s0 : IdxState nVals U) (ops : List (Op (IdxState nVals U) (Nat × Nat))) (a b : Nat) :
+    let c := ops.foldl (step (fcIds weight quorum) ev) ⟨s0, []⟩
+    a < c.st.h.length → b < c.st.h.length →
+    (query (fcIds weight quorum) ev c (c.st.emb a, c.st.emb b)).2 =
+      some ((run nVals c.st.h).fc weight quorum a b) := by
+  intro c ha hb
+  apply cache_transparent (fcIds weight quorum) ev hev (fcIds_deterministic weight quorum gU hq) s0 ops
+  show fcIds weight quorum c.st (c.st.emb a, c.st.emb b) = _
+  unfold fcIds
+  have hx : ∃ p : Nat × Nat, p.1 < c.st.h.length ∧ p.2 < c.st.h.length ∧
+      c.st.emb p.1 = (c.st.emb a, c.st.emb b).1 ∧ c.st.emb p.2 = (c.st.emb a, c.st.emb b).2 :=
+    ⟨(a, b), ha, hb, rfl, rfl⟩
+  rw [dif_pos hx]
+  obtain ⟨h1, h2, h3, h4⟩ := hx.choose_spec
+  rw [c.st.isEmb.inj _ _ h1 ha h3, c.st.isEmb.inj _ _ h2 hb h4]
+
+end VecModel
 
 end C07
